@@ -238,6 +238,37 @@ func canon(v interface{}) string {
 	return fmt.Sprintf("<%T>%v", v, v)
 }
 
+// canonNil is canon that also tells a nil slice / map from an empty one (JSON writes null for one and [] / {} for the
+// other); used where the implementation must leave containers exactly as they were.
+func canonNil(v interface{}) string {
+	switch x := v.(type) {
+	case map[string]interface{}:
+		if x == nil {
+			return "nil{}"
+		}
+		ks := make([]string, 0, len(x))
+		for k := range x {
+			ks = append(ks, k)
+		}
+		sort.Strings(ks)
+		parts := make([]string, len(ks))
+		for i, k := range ks {
+			parts[i] = strconv.Quote(k) + ":" + canonNil(x[k])
+		}
+		return "{" + strings.Join(parts, ",") + "}"
+	case []interface{}:
+		if x == nil {
+			return "nil[]"
+		}
+		parts := make([]string, len(x))
+		for i, e := range x {
+			parts[i] = canonNil(e)
+		}
+		return "[" + strings.Join(parts, ",") + "]"
+	}
+	return canon(v)
+}
+
 func canonMultiset(vs []interface{}) string {
 	xs := make([]string, len(vs))
 	for i, v := range vs {
